@@ -1,54 +1,96 @@
 import TexelVerif.Chess.Fen
+/-!
+# C02 (FEN part): writing a position as FEN and reading it back gives the same position
+
+Main result (fully proved, no `sorry`, axioms `propext`, `Classical.choice`, `Quot.sound` only):
+
+    theorem readFEN_toFEN (p : Pos) (h : WFfen p) : readFEN (toFEN p) = .ok p
+
+`WFfen p` describes the normal forms of the reader (`TextIO::readFEN`, textio.cpp:34-190): piece codes ≤ 12, no pawn
+on ranks 1/8, exactly one king per side, the side not to move is not in check, castling bits < 16 and only with king
+and rook at home, the e.p. square plausible (right rank, empty, enemy pawn behind it) and kept by `fixupEP`,
+both counters < 2^31 (`std::stoi` range).  `WFfen` is decidable.
+
+Component lemmas (each usable on its own by the differential check):
+* (a) castling field  — `parseCastle_castleToString`
+* (b) e.p. field      — `sqName_parse` (from `ep_fin`, `sqName_toList`), `epField_dash`, `epField_sq`
+* (c) counters        — `stoi_toString`, `stoi_toString_int`, `stoi_toDigits` (all `n < 2^31`, general, not bounded)
+* (d) placement field — `rowToFEN_toList`, `placement_toList`, `parseRow`, `parsePlacement_placeChars`
+* (e) assembly        — `toFEN_toList`, `readFENRaw_eq`, `fenReadRest_words`, `castleFix_id`, `fenFinish_ok`,
+                        `readFENRaw_toFEN`, `readFEN_toFEN`
+* anchors             — `readFEN_toFEN_start`, `readFEN_toFEN_ep`, `readFEN_toFEN_castle_direct` (kernel computation)
+
+Not proved here (not needed for the round trip): the converse `readFEN s = .ok p → WFfen p` (the reader only
+produces normal forms), and nothing is said about FEN strings not produced by the writer.
+-/
 namespace Chess
 
 
-instance {ε α} [DecidableEq ε] [DecidableEq α] : DecidableEq (Except ε α) := fun a b =>
+/-- `Except` has no `DecidableEq` instance in core; needed for `decide` on reader results -/
+instance fenRTDecEqExcept {ε α} [DecidableEq ε] [DecidableEq α] : DecidableEq (Except ε α) := fun a b =>
   match a, b with
   | .ok x, .ok y => if h : x = y then isTrue (by rw [h]) else isFalse (by intro h'; cases h'; exact h rfl)
   | .error x, .error y => if h : x = y then isTrue (by rw [h]) else isFalse (by intro h'; cases h'; exact h rfl)
   | .ok _, .error _ => isFalse (by intro h; cases h)
   | .error _, .ok _ => isFalse (by intro h; cases h)
 
+/-! ## (a) castling field -/
+
+/-- all 16 castling masks: the written field parses back, is non-empty and contains no space -/
 theorem castle_fin : ∀ m : Fin 16,
     parseCastle (castleToString (UInt8.ofNat m.val)).toList 0 = .ok (UInt8.ofNat m.val) ∧
     (castleToString (UInt8.ofNat m.val)).toList ≠ [] ∧
     (castleToString (UInt8.ofNat m.val)).toList.all (fun c => c != ' ') = true := by
   decide
 
+/-- **(a)** castling field round trip: `castleToString` followed by `parseCastle` is the identity on masks < 16 -/
 theorem parseCastle_castleToString (m : UInt8) (h : m < 16) :
     parseCastle (castleToString m).toList 0 = .ok m := by
   have h' : m.toNat < 16 := by simpa using UInt8.lt_iff_toNat_lt.mp h
   have := (castle_fin ⟨m.toNat, h'⟩).1
   simpa using this
 
+/-! ## (b) en-passant field -/
+
+/-- all 64 squares: the two characters of `sqName e` decode (as in `readFENRaw`) to `e`; they are neither `-` nor a space -/
 theorem ep_fin : ∀ e : Sq,
     mkSq? (((Char.ofNat ('a'.toNat + e.x)).toNat : Int) - ('a'.toNat : Int))
           (((Char.ofNat ('1'.toNat + e.y)).toNat : Int) - ('1'.toNat : Int)) = some e ∧
     Char.ofNat ('a'.toNat + e.x) ≠ '-' ∧ Char.ofNat ('a'.toNat + e.x) ≠ ' ' ∧ Char.ofNat ('1'.toNat + e.y) ≠ ' ' := by
   decide
 
+/-- the writer's square name is exactly the file letter followed by the rank digit -/
 theorem sqName_toList (e : Sq) : (sqName e).toList = [Char.ofNat ('a'.toNat + e.x), Char.ofNat ('1'.toNat + e.y)] := by
-  simp [sqName, String.toList_append]
+  simp [sqName]
 
-theorem isDigit_bounds (c : Char) (h : c.isDigit = true) : 48 ≤ c.toNat ∧ c.toNat ≤ 57 := by
+
+/-- **(b)** e.p. field round trip: the two characters of `sqName e` parse back to `e` with `mkSq?` as in `readFENRaw` -/
+theorem sqName_parse (e : Sq) : ∃ c0 c1, (sqName e).toList = [c0, c1] ∧
+    mkSq? ((c0.toNat : Int) - ('a'.toNat : Int)) ((c1.toNat : Int) - ('1'.toNat : Int)) = some e :=
+  ⟨_, _, sqName_toList e, (ep_fin e).1⟩
+
+private theorem isDigit_bounds (c : Char) (h : c.isDigit = true) : 48 ≤ c.toNat ∧ c.toNat ≤ 57 := by
   simp [Char.isDigit] at h
   have h1 := UInt32.le_iff_toNat_le.mp h.1
   have h2 := UInt32.le_iff_toNat_le.mp h.2
   simp at h1 h2
   exact ⟨h1, h2⟩
 
-theorem foldl_eq_ofDigitChars (ds : List Char) (init : Nat) :
+private theorem foldl_eq_ofDigitChars (ds : List Char) (init : Nat) :
     ds.foldl (fun a c => a * 10 + (c.toNat - '0'.toNat)) init = Nat.ofDigitChars 10 ds init := by
   rw [Nat.ofDigitChars_eq_foldl]
   congr 1
   funext a c
   rw [Nat.mul_comm]
 
-theorem takeWhile_all {α} (p : α → Bool) : ∀ (l : List α), (∀ x ∈ l, p x = true) → l.takeWhile p = l
+private theorem takeWhile_all {α} (p : α → Bool) : ∀ (l : List α), (∀ x ∈ l, p x = true) → l.takeWhile p = l
   | [], _ => rfl
   | a :: l, h => by
     rw [List.takeWhile_cons_of_pos (h a (by simp)), takeWhile_all p l (fun x hx => h x (by simp [hx]))]
 
+/-! ## (c) counters -/
+
+/-- `stoi` on a non-empty all-digit word whose value fits in `int` returns that value -/
 theorem stoi_digits (ds : List Char) (hne : ds ≠ []) (hall : ∀ c ∈ ds, c.isDigit = true)
     (hr : Nat.ofDigitChars 10 ds 0 < 2 ^ 31) : stoi ds = some (Nat.ofDigitChars 10 ds 0 : Int) := by
   match ds, hne with
@@ -72,34 +114,43 @@ theorem stoi_digits (ds : List Char) (hne : ds ≠ []) (hall : ∀ c ∈ ds, c.i
       simp
       omega
 
+/-- **(c)** `stoi` inverts decimal printing for every `n < 2^31` (no bound on the number of digits) -/
 theorem stoi_toDigits (n : Nat) (h : n < 2 ^ 31) : stoi (Nat.toDigits 10 n) = some (n : Int) := by
   have := stoi_digits (Nat.toDigits 10 n) Nat.toDigits_ne_nil
     (fun c hc => Nat.isDigit_of_mem_toDigits (by decide) (by decide) hc) (by simpa using h)
   simpa using this
 
+/-- **(c)** counters round trip, `Nat` printing -/
 theorem stoi_toString (n : Nat) (h : n < 2 ^ 31) : stoi (toString n).toList = some (n : Int) := by
   simpa using stoi_toDigits n h
 
+/-- **(c)** counters round trip, as used by `toFENWith` (the counters are printed as `Int`) -/
 theorem stoi_toString_int (n : Nat) (h : n < 2 ^ 31) : stoi (toString (n : Int)).toList = some (n : Int) := by
   have : toString (n : Int) = toString n := rfl
   rw [this]; exact stoi_toString n h
 
 
 
+/-! ## (d) piece-placement field: the writer -/
+
+/-- the pending run of empty squares, as printed by the writer -/
 def tailDigits (e : Nat) : List Char := if 0 < e then Nat.toDigits 10 e else []
 
+/-- structurally recursive description of the writer's row loop: `n` columns left, at column `c`, `e` empty squares pending -/
 def rowChars (b : Board) (r : Nat) : Nat → Nat → Nat → List Char
   | 0, _, e => tailDigits e
   | n + 1, c, e =>
     if b.getD (r * 8 + c) 0 = 0 then rowChars b r n (c + 1) (e + 1)
     else tailDigits e ++ charOfPc (b.getD (r * 8 + c) 0) :: rowChars b r n (c + 1) 0
 
+/-- the body of the `for c in [0:8]` loop of `rowToFEN` (state: output so far, pending empties) -/
 def rowBody (b : Board) (r : Nat) (c : Nat) (s : String × Nat) : Id (ForInStep (String × Nat)) :=
   if Vector.getD b (r * 8 + c) 0 = 0 then pure (ForInStep.yield (s.fst, s.snd + 1))
   else if 0 < s.snd then
     pure (ForInStep.yield ((s.fst ++ s.snd.repr).push (charOfPc (Vector.getD b (r * 8 + c) 0)), 0))
   else pure (ForInStep.yield (s.fst.push (charOfPc (Vector.getD b (r * 8 + c) 0)), s.snd))
 
+/-- loop invariant of `rowToFEN`: running the loop from column `c` appends `rowChars b r n c e` -/
 theorem rowLoop (b : Board) (r : Nat) : ∀ (n c e : Nat) (out : String),
     (forIn (List.range' c n) (out, e) (rowBody b r)).run.1.toList ++
       tailDigits (forIn (List.range' c n) (out, e) (rowBody b r)).run.2 = out.toList ++ rowChars b r n c e := by
@@ -124,6 +175,7 @@ theorem rowLoop (b : Board) (r : Nat) : ∀ (n c e : Nat) (out : String),
         have ht : tailDigits 0 = [] := by simp [tailDigits]
         simpa [String.toList_push, ht] using this
 
+/-- `rowToFEN` as the explicit 8-iteration loop over `rowBody` -/
 theorem rowToFEN_eq (b : Board) (r : Nat) : rowToFEN b r =
     if 0 < (forIn (List.range' 0 8) ("", 0) (rowBody b r)).run.2
     then (forIn (List.range' 0 8) ("", 0) (rowBody b r)).run.1 ++ (forIn (List.range' 0 8) ("", 0) (rowBody b r)).run.2.repr
@@ -132,6 +184,7 @@ theorem rowToFEN_eq (b : Board) (r : Nat) : rowToFEN b r =
   unfold rowBody
   split <;> rfl
 
+/-- **(d, writer)** the characters of one written row -/
 theorem rowToFEN_toList (b : Board) (r : Nat) : (rowToFEN b r).toList = rowChars b r 8 0 0 := by
   have := rowLoop b r 8 0 0 ""
   simp only [String.toList_empty, List.nil_append] at this
@@ -141,23 +194,28 @@ theorem rowToFEN_toList (b : Board) (r : Nat) : (rowToFEN b r).toList = rowChars
   split <;> simp
 
 
+/-! ## (d) piece-placement field: the reader -/
+
+/-- a space ends the placement field (and is left in the input) -/
 theorem parsePlacement_space (cs : List Char) (b : Board) (row : Int) (col : Nat) :
     parsePlacement (' ' :: cs) b row col = .ok (b, ' ' :: cs) := by
   simp [parsePlacement]
 
+/-- `/` moves to the next lower row -/
 theorem parsePlacement_slash (cs : List Char) (b : Board) (row : Int) (col : Nat) (h : 1 ≤ row) :
     parsePlacement ('/' :: cs) b row col = parsePlacement cs b (row - 1) 0 := by
   rw [parsePlacement]
   have : ¬ (row - 1 < 0) := by omega
   simp [this]
 
+/-- a digit 1..8 (printed run of empties) advances the column -/
 theorem parsePlacement_digit (e : Nat) (h1 : 1 ≤ e) (h8 : e ≤ 8) (cs : List Char) (b : Board) (row : Int) (col : Nat) :
     parsePlacement (Nat.toDigits 10 e ++ cs) b row col = parsePlacement cs b row (col + e) := by
   have : e = 1 ∨ e = 2 ∨ e = 3 ∨ e = 4 ∨ e = 5 ∨ e = 6 ∨ e = 7 ∨ e = 8 := by omega
   rcases this with h | h | h | h | h | h | h | h <;> subst h <;>
     (rw [show Nat.toDigits 10 _ = [_] from rfl, List.singleton_append, parsePlacement]; simp [Nat.digitChar])
 
-theorem pc_cases (pc : Pc) (h0 : pc ≠ 0) (h : pc ≤ 12) :
+private theorem pc_cases (pc : Pc) (h0 : pc ≠ 0) (h : pc ≤ 12) :
     pc = 1 ∨ pc = 2 ∨ pc = 3 ∨ pc = 4 ∨ pc = 5 ∨ pc = 6 ∨ pc = 7 ∨ pc = 8 ∨ pc = 9 ∨ pc = 10 ∨ pc = 11 ∨ pc = 12 := by
   have h' : pc.toNat ≤ 12 := by simpa using UInt8.le_iff_toNat_le.mp h
   have h0' : pc.toNat ≠ 0 := by intro hh; apply h0; exact UInt8.toNat_inj.mp (by simpa using hh)
@@ -165,6 +223,7 @@ theorem pc_cases (pc : Pc) (h0 : pc ≠ 0) (h : pc ≤ 12) :
   simp
   omega
 
+/-- a piece letter writes the piece and advances the column (`pcOfChar (charOfPc pc) = some pc` for 1 ≤ pc ≤ 12) -/
 theorem parsePlacement_piece (pc : Pc) (h0 : pc ≠ 0) (h : pc ≤ 12) (cs : List Char) (b : Board) (row : Int) (col : Nat)
     (hc : col ≤ 7) (hp : (pc = WPAWN ∨ pc = BPAWN) → row ≠ 0 ∧ row ≠ 7) :
     parsePlacement (charOfPc pc :: cs) b row col = parsePlacement cs (setSq b (row.toNat * 8 + col) pc) row (col + 1) := by
@@ -173,6 +232,8 @@ theorem parsePlacement_piece (pc : Pc) (h0 : pc ≠ 0) (h : pc ≤ 12) (cs : Lis
     (rw [parsePlacement]; simp [charOfPc, pcOfChar, hc', WPAWN, BPAWN] at hp ⊢ <;> omega)
 
 
+/-- the board restricted to the squares the reader has visited when it stands at (row `r`, column `c`):
+    rows above `r` completely, row `r` up to column `c`; zero elsewhere -/
 def prefixB (b : Board) (r c : Nat) : Board :=
   Vector.ofFn fun i : Fin 64 => if r < i.val / 8 ∨ (i.val / 8 = r ∧ i.val % 8 < c) then b[i] else 0
 
@@ -227,8 +288,8 @@ theorem prefixB_end (b : Board) : prefixB b 0 8 = b := by
   rw [if_pos this]
   rfl
 
-theorem tailDigits_zero : tailDigits 0 = [] := by simp [tailDigits]
-theorem tailDigits_pos (e : Nat) (h : 0 < e) : tailDigits e = Nat.toDigits 10 e := by simp [tailDigits, h]
+private theorem tailDigits_zero : tailDigits 0 = [] := by simp [tailDigits]
+private theorem tailDigits_pos (e : Nat) (h : 0 < e) : tailDigits e = Nat.toDigits 10 e := by simp [tailDigits, h]
 
 /-- one row: the parser, started at column `c - e` (with `e` pending empty squares) on the board holding
     exactly the squares written so far, consumes `rowChars b r n c e` and ends at column 8 with the whole
@@ -277,14 +338,24 @@ theorem parseRow (b : Board) (r : Nat) (hr : r < 8)
         rw [show c - e + e = c by omega]
         simpa using key
 
+
 /-- the writer's piece-placement field as a character list -/
 def placeChars (b : Board) : List Char :=
   rowChars b 7 8 0 0 ++ '/' :: (rowChars b 6 8 0 0 ++ '/' :: (rowChars b 5 8 0 0 ++ '/' :: (rowChars b 4 8 0 0 ++
   '/' :: (rowChars b 3 8 0 0 ++ '/' :: (rowChars b 2 8 0 0 ++ '/' :: (rowChars b 1 8 0 0 ++ '/' :: rowChars b 0 8 0 0))))))
 
+
+/-- **(d, writer)** the placement field written by `toFENWith` (8 rows joined by `/`) is `placeChars b` -/
+theorem placement_toList (b : Board) :
+    (String.intercalate "/" ([7, 6, 5, 4, 3, 2, 1, 0].map (rowToFEN b))).toList = placeChars b := by
+  simp [placeChars, rowToFEN_toList]
+
+/-- what the placement parser needs: codes ≤ 12 and no pawn on ranks 1 and 8 -/
 def BoardOK (b : Board) : Prop :=
   (∀ s : Sq, b[s] ≤ 12) ∧ (∀ s : Sq, (s.y = 0 ∨ s.y = 7) → b[s] ≠ WPAWN ∧ b[s] ≠ BPAWN)
 
+/-- **(d)** the placement parser, started on the empty board, reads the written placement field back to `b`
+    and stops at the separating space, returning the rest of the input untouched -/
 theorem parsePlacement_placeChars (b : Board) (hb : BoardOK b) (rest : List Char) :
     parsePlacement (placeChars b ++ ' ' :: rest) (Vector.replicate 64 0) 7 0 = .ok (b, ' ' :: rest) := by
   have hcodes : ∀ r, r < 8 → ∀ c, c < 8 → b.getD (r * 8 + c) 0 ≤ 12 := by
@@ -318,6 +389,8 @@ theorem parsePlacement_placeChars (b : Board) (hb : BoardOK b) (rest : List Char
   rw [show (1 : Int) - 1 = 0 from rfl, r0, parsePlacement_space, prefixB_end]
 
 
+/-! ## (e) assembly: splitting the line into fields -/
+
 theorem skipSpaces_ne (c : Char) (cs : List Char) (h : c ≠ ' ') : skipSpaces (c :: cs) = c :: cs := by
   unfold skipSpaces
   split
@@ -348,6 +421,8 @@ theorem takeWord_end (w : List Char) (h : ∀ c ∈ w, c ≠ ' ') : takeWord w =
     simp only [takeWord, beq_iff_eq, hc, if_false]
     rw [ih (fun x hx => h x (by simp [hx]))]
 
+/-! ## (e) assembly: `readFENRaw` in stages (definitionally equal to the original, see `readFENRaw_eq`) -/
+
 /-- the reader's castling-right clean-up (textio.cpp: rights whose king/rook left home are dropped) -/
 def castleFix (b : Board) (cm : UInt8) : UInt8 :=
   let g (n : Nat) : Pc := b.getD n 0
@@ -357,6 +432,7 @@ def castleFix (b : Board) (cm : UInt8) : UInt8 :=
   let cm := if g 60 != BKING || g 56 != BROOK then cm &&& ~~~(4 : UInt8) else cm
   cm
 
+/-- the e.p. field of `readFENRaw` (before `fixupEP`) as a function of the remaining input -/
 def epField (b : Board) (wtm : Bool) (rest : List Char) : Except FenErr (Option Sq) :=
   let g (n : Nat) : Pc := b.getD n 0
   match rest with
@@ -374,7 +450,8 @@ def epField (b : Board) (wtm : Bool) (rest : List Char) : Except FenErr (Option 
       else
         if e.y != 2 || b[e] != 0 || g (e.val + 8) != WPAWN then pure none else pure (some e)
 
-def finish (b : Board) (wtm : Bool) (cm : UInt8) (ep : Option Sq) (hmc fmc : Int) : Except FenErr RawPos :=
+/-- the tail of `readFENRaw`: king counts, king-capture test, `fixupEP` -/
+def fenFinish (b : Board) (wtm : Bool) (cm : UInt8) (ep : Option Sq) (hmc fmc : Int) : Except FenErr RawPos :=
   if countPc b WKING != 1 then .error .whiteKings
   else if countPc b BKING != 1 then .error .blackKings
   else if inCheck b (!wtm) then .error .kingCapture
@@ -382,7 +459,8 @@ def finish (b : Board) (wtm : Bool) (cm : UInt8) (ep : Option Sq) (hmc fmc : Int
     let p : Pos := fixupEP { b := b, wtm := wtm, castle := cm, ep := ep, hmc := 0, fmc := 1 }
     .ok { b := b, wtm := wtm, castle := cm, ep := p.ep, hmc := hmc, fmc := fmc }
 
-def readRest (b : Board) (sc : Char) (rest : List Char) : Except FenErr RawPos := do
+/-- `readFENRaw` after the side-to-move character -/
+def fenReadRest (b : Board) (sc : Char) (rest : List Char) : Except FenErr RawPos := do
   let wtm := sc == 'w'
   let rest := skipSpaces rest
   let (cw, rest) := takeWord rest
@@ -397,26 +475,28 @@ def readRest (b : Board) (sc : Char) (rest : List Char) : Except FenErr RawPos :
   let rest := skipSpaces rest
   let (fw, _) := takeWord rest
   let fmc : Int := if fw.isEmpty then 1 else (stoi fw).getD 1
-  finish b wtm cm ep hmc fmc
+  fenFinish b wtm cm ep hmc fmc
 
+/-- the staged reader is the original reader, by definitional unfolding -/
 theorem readFENRaw_eq (fen : String) : readFENRaw fen =
     (parsePlacement fen.toList (Vector.replicate 64 0) 7 0).bind fun br =>
       match skipSpaces br.2 with
       | [] => .error .invalidSide
-      | sc :: rest => readRest br.1 sc rest := by
+      | sc :: rest => fenReadRest br.1 sc rest := by
   rfl
 
-theorem readRest_words (b : Board) (sc : Char) (cw epw hw fw : List Char)
+/-- field splitting: on `" " cw " " epw " " hw " " fw` (non-empty words without spaces) the reader sees exactly these words -/
+theorem fenReadRest_words (b : Board) (sc : Char) (cw epw hw fw : List Char)
     (hc0 : cw ≠ []) (hc : ∀ c ∈ cw, c ≠ ' ') (he0 : epw ≠ []) (he : ∀ c ∈ epw, c ≠ ' ')
     (hh0 : hw ≠ []) (hh : ∀ c ∈ hw, c ≠ ' ') (hf0 : fw ≠ []) (hf : ∀ c ∈ fw, c ≠ ' ') :
-    readRest b sc (' ' :: (cw ++ ' ' :: (epw ++ ' ' :: (hw ++ ' ' :: fw)))) =
+    fenReadRest b sc (' ' :: (cw ++ ' ' :: (epw ++ ' ' :: (hw ++ ' ' :: fw)))) =
       (parseCastle cw 0).bind fun cm =>
         (epField b (sc == 'w') (epw ++ ' ' :: (hw ++ ' ' :: fw))).bind fun ep =>
-          finish b (sc == 'w') (castleFix b cm) ep ((stoi hw).getD 0) ((stoi fw).getD 1) := by
+          fenFinish b (sc == 'w') (castleFix b cm) ep ((stoi hw).getD 0) ((stoi fw).getD 1) := by
   have hhe : hw.isEmpty = false := by cases hw <;> simp_all
   have hfe : fw.isEmpty = false := by cases fw <;> simp_all
   have h4 : skipSpaces (' ' :: fw) = fw := by simpa using skipSpaces_word fw [] hf0 hf
-  simp only [readRest, skipSpaces_word _ _ hc0 hc, takeWord_append _ _ hc, skipSpaces_word _ _ he0 he,
+  simp only [fenReadRest, skipSpaces_word _ _ hc0 hc, takeWord_append _ _ hc, skipSpaces_word _ _ he0 he,
     takeWord_append _ _ he, skipSpaces_word _ _ hh0 hh, takeWord_append _ _ hh, h4, takeWord_end _ hf, hhe, hfe]
   rfl
 
@@ -457,20 +537,21 @@ instance (p : Pos) : Decidable (WFfen p) :=
      fun w => ⟨w.codes, w.pawns, w.wking, w.bking, w.notInCheck, w.castleLt, w.castleK, w.castleQ, w.castlek,
                w.castleq, w.epOk, w.epLegal, w.hmcLt, w.fmcLt⟩⟩
 
-theorem mask_fin : ∀ m : Fin 16,
+private theorem mask_fin : ∀ m : Fin 16,
     ((UInt8.ofNat m.val) &&& 2 = 0 → (UInt8.ofNat m.val) &&& ~~~(2 : UInt8) = UInt8.ofNat m.val) ∧
     ((UInt8.ofNat m.val) &&& 1 = 0 → (UInt8.ofNat m.val) &&& ~~~(1 : UInt8) = UInt8.ofNat m.val) ∧
     ((UInt8.ofNat m.val) &&& 8 = 0 → (UInt8.ofNat m.val) &&& ~~~(8 : UInt8) = UInt8.ofNat m.val) ∧
     ((UInt8.ofNat m.val) &&& 4 = 0 → (UInt8.ofNat m.val) &&& ~~~(4 : UInt8) = UInt8.ofNat m.val) := by
   decide
 
-theorem mask_id (m : UInt8) (hm : m < 16) :
+private theorem mask_id (m : UInt8) (hm : m < 16) :
     (m &&& 2 = 0 → m &&& ~~~(2 : UInt8) = m) ∧ (m &&& 1 = 0 → m &&& ~~~(1 : UInt8) = m) ∧
     (m &&& 8 = 0 → m &&& ~~~(8 : UInt8) = m) ∧ (m &&& 4 = 0 → m &&& ~~~(4 : UInt8) = m) := by
   have h' : m.toNat < 16 := by simpa using UInt8.lt_iff_toNat_lt.mp hm
   have := mask_fin ⟨m.toNat, h'⟩
   simpa using this
 
+/-- under `WFfen` the castling clean-up changes nothing -/
 theorem castleFix_id (p : Pos) (w : WFfen p) : castleFix p.b p.castle = p.castle := by
   obtain ⟨m2, m1, m8, m4⟩ := mask_id p.castle w.castleLt
   have e2 : (if (p.b.getD 4 0 != WKING || p.b.getD 7 0 != WROOK) = true then p.castle &&& ~~~(2 : UInt8) else p.castle) = p.castle := by
@@ -511,9 +592,11 @@ theorem castleFix_id (p : Pos) (w : WFfen p) : castleFix p.b p.castle = p.castle
     · rfl
   simp only [castleFix, e2, e1, e8, e4]
 
+/-- **(b)** `-` reads as "no e.p. square" -/
 theorem epField_dash (b : Board) (wtm : Bool) (r : List Char) : epField b wtm ('-' :: r) = .ok none := by
   simp [epField, pure, Except.pure]
 
+/-- **(b)** the written name of a plausible e.p. square reads back as that square -/
 theorem epField_sq (b : Board) (wtm : Bool) (e : Sq) (r : List Char) (h : epPlausible b wtm e) :
     epField b wtm (Char.ofNat ('a'.toNat + e.x) :: Char.ofNat ('1'.toNat + e.y) :: r) = .ok (some e) := by
   obtain ⟨hmk, hd, _, _⟩ := ep_fin e
@@ -530,10 +613,133 @@ theorem epField_sq (b : Board) (wtm : Bool) (e : Sq) (r : List Char) (h : epPlau
     unfold epPlausible at h
     cases wtm <;> simp_all [pure, Except.pure]
 
-theorem finish_ok (p : Pos) (w : WFfen p) (hmc fmc : Int) :
-    finish p.b p.wtm p.castle p.ep hmc fmc =
+/-- under `WFfen` the final checks pass and `fixupEP` keeps the e.p. square -/
+theorem fenFinish_ok (p : Pos) (w : WFfen p) (hmc fmc : Int) :
+    fenFinish p.b p.wtm p.castle p.ep hmc fmc =
       .ok { b := p.b, wtm := p.wtm, castle := p.castle, ep := p.ep, hmc := hmc, fmc := fmc } := by
   have := w.epLegal
-  simp only [finish, w.wking, w.bking, w.notInCheck]
+  simp only [fenFinish, w.wking, w.bking, w.notInCheck]
   simp [this]
+
+/-- the writer's e.p. field as characters -/
+def epChars : Option Sq → List Char
+  | some e => [Char.ofNat ('a'.toNat + e.x), Char.ofNat ('1'.toNat + e.y)]
+  | none => ['-']
+
+/-- the writer's output as a character list -/
+def fenChars (p : Pos) : List Char :=
+  placeChars p.b ++ ' ' :: (if p.wtm then 'w' else 'b') :: ' ' :: ((castleToString p.castle).toList ++ ' ' ::
+    (epChars p.ep ++ ' ' :: (Nat.toDigits 10 p.hmc ++ ' ' :: Nat.toDigits 10 p.fmc)))
+
+/-- **(e, writer)** the complete FEN string as a character list -/
+theorem toFEN_toList (p : Pos) : (toFEN p).toList = fenChars p := by
+  have hs : (toString " " : String) = " " := rfl
+  obtain ⟨b, wtm, castle, ep, hmc, fmc⟩ := p
+  simp only [toFEN, toFENWith, fenChars, placeChars]
+  cases ep <;> cases wtm <;>
+    simp [String.toList_append, Int.repr, rowToFEN_toList, hs, epChars, sqName_toList]
+
+/-- the castling word is non-empty and has no space -/
+theorem castle_words (m : UInt8) (h : m < 16) :
+    (castleToString m).toList ≠ [] ∧ ∀ c ∈ (castleToString m).toList, c ≠ ' ' := by
+  have h' : m.toNat < 16 := by simpa using UInt8.lt_iff_toNat_lt.mp h
+  have := (castle_fin ⟨m.toNat, h'⟩).2
+  simp only [UInt8.ofNat_toNat] at this
+  refine ⟨this.1, ?_⟩
+  intro c hc
+  have := List.all_eq_true.mp this.2 c hc
+  simpa using this
+
+/-- the e.p. word is non-empty and has no space -/
+theorem epChars_words (ep : Option Sq) : epChars ep ≠ [] ∧ ∀ c ∈ epChars ep, c ≠ ' ' := by
+  cases ep with
+  | none => simp [epChars]
+  | some e =>
+    obtain ⟨_, _, h1, h2⟩ := ep_fin e
+    refine ⟨by simp [epChars], ?_⟩
+    intro c hc
+    simp only [epChars, List.mem_cons, List.not_mem_nil, or_false] at hc
+    rcases hc with rfl | rfl
+    · exact h1
+    · exact h2
+
+/-- a printed number is non-empty and has no space -/
+theorem digits_words (n : Nat) : Nat.toDigits 10 n ≠ [] ∧ ∀ c ∈ Nat.toDigits 10 n, c ≠ ' ' := by
+  refine ⟨Nat.toDigits_ne_nil, ?_⟩
+  intro c hc hh
+  have := isDigit_bounds c (Nat.isDigit_of_mem_toDigits (by decide) (by decide) hc)
+  subst hh
+  simp at this
+
+/-- the raw reader (counters still `Int`) inverts the writer on well-formed positions -/
+theorem readFENRaw_toFEN (p : Pos) (w : WFfen p) :
+    readFENRaw (toFEN p) =
+      .ok { b := p.b, wtm := p.wtm, castle := p.castle, ep := p.ep, hmc := p.hmc, fmc := p.fmc } := by
+  rw [readFENRaw_eq, toFEN_toList]
+  unfold fenChars
+  rw [parsePlacement_placeChars p.b ⟨w.codes, w.pawns⟩]
+  have hside : (if p.wtm = true then 'w' else 'b') ≠ ' ' := by cases p.wtm <;> decide
+  have hwtm : ((if p.wtm = true then 'w' else 'b') == 'w') = p.wtm := by cases p.wtm <;> decide
+  simp only [Except.bind, skipSpaces_space, skipSpaces_ne _ _ hside]
+  obtain ⟨c0, c1⟩ := castle_words p.castle w.castleLt
+  obtain ⟨e0, e1⟩ := epChars_words p.ep
+  obtain ⟨h0, h1⟩ := digits_words p.hmc
+  obtain ⟨f0, f1⟩ := digits_words p.fmc
+  rw [fenReadRest_words _ _ _ _ _ _ c0 c1 e0 e1 h0 h1 f0 f1, parseCastle_castleToString _ w.castleLt]
+  simp only [Except.bind, hwtm, castleFix_id p w, stoi_toDigits _ w.hmcLt, stoi_toDigits _ w.fmcLt, Option.getD_some]
+  have hep : epField p.b p.wtm (epChars p.ep ++ ' ' :: (Nat.toDigits 10 p.hmc ++ ' ' :: Nat.toDigits 10 p.fmc)) = .ok p.ep := by
+    cases hpe : p.ep with
+    | none => exact epField_dash _ _ _
+    | some e => exact epField_sq _ _ _ _ (w.epOk e hpe)
+  rw [hep]
+  exact fenFinish_ok p w _ _
+
+/-- **C02 (FEN part)**: a well-formed position written as FEN and read back is identical -/
+theorem readFEN_toFEN (p : Pos) (h : WFfen p) : readFEN (toFEN p) = .ok p := by
+  rw [readFEN, readFENRaw_toFEN p h]
+  simp [Except.map, RawPos.toPos]
+
+/-! ## Sanity anchors (kernel computation, no `native_decide`) -/
+
+def fenStartPos : Pos :=
+  { b := #v[3, 5, 4, 2, 1, 4, 5, 3,  6, 6, 6, 6, 6, 6, 6, 6,  0, 0, 0, 0, 0, 0, 0, 0,  0, 0, 0, 0, 0, 0, 0, 0,
+            0, 0, 0, 0, 0, 0, 0, 0,  0, 0, 0, 0, 0, 0, 0, 0,  12, 12, 12, 12, 12, 12, 12, 12,  9, 11, 10, 8, 7, 10, 11, 9],
+    wtm := true, castle := 15, ep := none, hmc := 0, fmc := 1 }
+
+theorem readFEN_start : readFEN startFEN = .ok fenStartPos := by decide +kernel
+theorem toFEN_start : toFEN fenStartPos = startFEN := by decide +kernel
+theorem WFfen_start : WFfen fenStartPos := by decide +kernel
+
+theorem readFEN_toFEN_start : ∃ p, readFEN startFEN = .ok p ∧ readFEN (toFEN p) = .ok p :=
+  ⟨fenStartPos, readFEN_start, readFEN_toFEN _ WFfen_start⟩
+
+/-- after 1.e4 … with a black pawn on d4: the en-passant square e3 is kept (a legal e.p. capture exists) -/
+def fenEpPos : Pos :=
+  { b := #v[3, 5, 4, 2, 1, 4, 5, 3,  6, 6, 6, 6, 0, 6, 6, 6,  0, 0, 0, 0, 0, 0, 0, 0,  0, 0, 0, 12, 6, 0, 0, 0,
+            0, 0, 0, 0, 0, 0, 0, 0,  0, 0, 0, 0, 0, 0, 0, 0,  12, 12, 12, 0, 12, 12, 12, 12,  9, 11, 10, 8, 7, 10, 11, 9],
+    wtm := false, castle := 15, ep := some 20, hmc := 0, fmc := 3 }
+
+def epFEN : String := "rnbqkbnr/ppp1pppp/8/8/3pP3/8/PPPP1PPP/RNBQKBNR b KQkq e3 0 3"
+
+theorem toFEN_ep : toFEN fenEpPos = epFEN := by decide +kernel
+theorem WFfen_ep : WFfen fenEpPos := by decide +kernel
+theorem readFEN_toFEN_ep : readFEN epFEN = .ok fenEpPos := by
+  rw [← toFEN_ep]; exact readFEN_toFEN _ WFfen_ep
+
+/-- partial castling rights and large counters -/
+def fenCastlePos : Pos :=
+  { b := #v[3, 0, 0, 0, 1, 0, 0, 3,  0, 0, 0, 0, 0, 0, 0, 0,  0, 0, 0, 0, 0, 0, 0, 0,  0, 0, 0, 0, 0, 0, 0, 0,
+            0, 0, 0, 0, 0, 0, 0, 0,  0, 0, 0, 0, 0, 0, 0, 0,  0, 0, 0, 0, 0, 0, 0, 0,  9, 0, 0, 0, 7, 0, 0, 9],
+    wtm := true, castle := 6, ep := none, hmc := 12, fmc := 34 }
+
+theorem readFEN_toFEN_castle_direct :
+    toFEN fenCastlePos = "r3k2r/8/8/8/8/8/8/R3K2R w Kq - 12 34" ∧ readFEN (toFEN fenCastlePos) = .ok fenCastlePos := by
+  decide +kernel
+
+#print axioms readFEN_toFEN
+#print axioms readFEN_toFEN_start
+#print axioms readFEN_toFEN_ep
+#print axioms readFEN_toFEN_castle_direct
+#print axioms parsePlacement_placeChars
+#print axioms stoi_toString
 end Chess
